@@ -173,7 +173,7 @@ type Intent struct {
 
 // IntentKinds lists every kind the builder understands.
 var IntentKinds = []string{
-	"pay", "pay", "sf", "form", "form", "fcop", "fcop", "fcop", "attest", "foundation", "arb",
+	"pay", "pay", "sf", "form", "form", "fcop", "fcop", "fcop", "attest", "foundation", "arb", "formprove",
 }
 
 // SpecificIntentKinds are the version-specific kinds generic ones resolve to.
@@ -430,6 +430,17 @@ func (bb *BlockBuilder) Add(in Intent) bool {
 	who, to := mod(in.Who, NumActors), mod(in.To, NumActors)
 	bb.serial++
 	switch in.Kind {
+	case "formprove":
+		// a v1 contract formed and proven inside one block (its window opens
+		// at this very height); where v1 is not allowed, an ordinary v2 formation
+		gen := in
+		if bb.v1Allowed() {
+			gen.Kind = "v1formprove"
+		} else {
+			gen.Kind = "v2form"
+		}
+		bb.serial--
+		return bb.Add(gen)
 	case "pay", "sf", "form", "attest", "foundation", "arb", "merge":
 		v2 := in.V2
 		if v2 && !bb.v2Allowed() {
@@ -631,7 +642,7 @@ func (bb *BlockBuilder) Add(in Intent) bool {
 		bb.addV1(txn, in.Kind)
 		return true
 
-	case "v1form":
+	case "v1form", "v1formprove":
 		if !bb.v1Allowed() {
 			bb.skip(in, "regime")
 			return false
@@ -668,10 +679,19 @@ func (bb *BlockBuilder) Add(in Intent) bool {
 			ValidProofOutputs:  []types.SiacoinOutput{{Address: Actors[who].Addr, Value: rv}, {Address: Actors[to].Addr, Value: validSum.Sub(rv)}},
 			MissedProofOutputs: []types.SiacoinOutput{{Address: Actors[who].Addr, Value: rv}, {Address: Actors[to].Addr, Value: validSum.Sub(rv).Div64(2)}, {Address: types.VoidAddress, Value: validSum.Sub(rv).Sub(validSum.Sub(rv).Div64(2))}},
 		}
+		var proofLeaf [64]byte
 		if mod(in.Pick, 2) == 1 {
 			leaf := LeafData(mod(in.Pick/2, 16))
 			fc.Filesize = 64
 			fc.FileMerkleRoot = v1LeafRoot(leaf)
+			proofLeaf = leaf
+		}
+		if in.Kind == "v1formprove" && bb.Height >= 1 {
+			// the window opens with this block: the proof can ride in it
+			fc.WindowStart = bb.Height
+			if fc.WindowEnd <= fc.WindowStart {
+				fc.WindowEnd = fc.WindowStart + 1
+			}
 		}
 		txn := types.Transaction{SiacoinInputs: []types.SiacoinInput{{ParentID: id, UnlockConditions: Actors[who].UC}}, FileContracts: []types.FileContract{fc}}
 		if r := out.Value.Sub(payout).Sub(fee); !r.IsZero() {
@@ -682,6 +702,11 @@ func (bb *BlockBuilder) Add(in Intent) bool {
 		}
 		signV1(cs, &txn, map[types.Hash256]int{types.Hash256(id): who})
 		bb.addV1(txn, in.Kind)
+		if in.Kind == "v1formprove" && bb.Height >= 1 {
+			fcid := txn.FileContractID(0)
+			bb.usedFC[fcid] = true
+			bb.addV1(types.Transaction{StorageProofs: []types.StorageProof{{ParentID: fcid, Leaf: proofLeaf}}}, "v1proof")
+		}
 		return true
 
 	case "v1rev":
@@ -1229,5 +1254,22 @@ func V2SpendMany(cs consensus.State, elems []types.SiacoinElement, to int, fee t
 	}
 	txn.SiacoinOutputs = []types.SiacoinOutput{{Address: Actors[to].Addr, Value: sum.Sub(fee)}}
 	SignV2(cs, &txn)
+	return txn
+}
+
+// V1SpendPadded is V1SpendMany for one element with `pad` bytes of arbitrary
+// data (to give the transaction a chosen weight).
+func V1SpendPadded(cs consensus.State, e types.SiacoinElement, who, to int, fee types.Currency, pad int, tag int) types.Transaction {
+	txn := types.Transaction{
+		SiacoinInputs:  []types.SiacoinInput{{ParentID: e.ID, UnlockConditions: Actors[who].UC}},
+		SiacoinOutputs: []types.SiacoinOutput{{Address: Actors[to].Addr, Value: e.SiacoinOutput.Value.Sub(fee)}},
+	}
+	if !fee.IsZero() {
+		txn.MinerFees = []types.Currency{fee}
+	}
+	data := make([]byte, pad)
+	copy(data, []byte(fmt.Sprintf("NonSia-pad-%d", tag)))
+	txn.ArbitraryData = [][]byte{data}
+	signV1(cs, &txn, map[types.Hash256]int{types.Hash256(e.ID): who})
 	return txn
 }
